@@ -33,6 +33,10 @@ class C03(SessionCheck):
             # payloads that are themselves complete <rpc message-id="101"> elements (pasted from documentation), several outstanding
             out.append({'kind': 'e2e', 'sc': {'transport': 'unix', 'profile': ['default', 'junos'][i % 2], 'threads': 3, 'per_thread': 2, 'window': 4, 'notifs': 0,
                                               'seg': 'whole', 'pasted': True, 'seed': rng.randrange(1 << 30)}})
+        for i in range(2 if tier == 'quick' else 10):
+            # several threads on one session whose device handler (a user class) is slow in its hooks
+            out.append({'kind': 'e2e', 'sc': {'transport': 'unix', 'profile': 'default', 'threads': 4, 'per_thread': 3, 'window': 2, 'notifs': 0,
+                                              'seg': 'whole', 'slow_handler': True, 'seed': rng.randrange(1 << 30)}})
         # two sessions alive in one process: one ENDS (close_session / EOF from its server / local close) while the other has requests
         # outstanding whose replies arrive afterwards
         ends = ['close_session', 'server-eof', 'local-close']
